@@ -48,6 +48,10 @@ OnceMon& onceMon() {
   return m;
 }
 
+// Hang verdict after 30 s without progress (60 s thorough): every program is a few microseconds of sequential code,
+// but a sanitizer report that is being symbolised on a loaded machine stalls the process for many seconds.
+static const int kFlatSeconds = 30;
+
 // at most 3 reports per violation key and process; the rest is only counted
 static bool firstFew(const std::string& fullKey) {
   static std::map<std::string, int> seen;
@@ -162,7 +166,7 @@ static void runC32() {
       spec.kv("mode", mode).kv("opMask", mask & ((uint64_t{1} << kCvNumOps) - 1)).kv("programs", perRandom);
     }
     vrt::caseBegin(idx, key, spec);
-    vrt::watchdogArm();
+    if (mode != "edge") vrt::watchdogArm(kFlatSeconds); // a sanitizer report being symbolised is not a hang
     long nt = 0, diverged = 0, ops = 0;
     uint64_t attempted = 0;
     bool crossed = false;
@@ -223,8 +227,10 @@ static void runC38() {
   // process under ASan, which must not cost the rest of a block
   const bool alias = vrt::g_args.getInt("alias", 1) != 0;
   const long blockC = alias ? R * P * K : 0;
+  const long aliasStride = std::max<long>(1, vrt::g_args.getInt("aliasstride", 1)); // ASan runs take a sample: every abort costs a process
   for (long idx = 0; idx < blockA + blockB + blockC; ++idx) {
     if (!vrt::selected(idx)) continue;
+    if (idx >= blockA + blockB && ((idx - blockA - blockB) / R) % aliasStride != static_cast<long>(vrt::g_args.seed % static_cast<uint64_t>(aliasStride))) continue;
     SvRunnerBase* run = runners[static_cast<size_t>(idx % R)];
     std::vector<Program> progs;
     J spec;
@@ -265,7 +271,7 @@ static void runC38() {
       vrt::Rng r = vrt::caseRng(idx);
       uint64_t mask = r.next() | r.next();
       if (r.chance(0.3)) mask = ~uint64_t{0};
-      if (!alias || r.chance(0.85)) mask &= ~(uint64_t{1} << kSvPushBackAlias);
+      mask &= ~(uint64_t{1} << kSvPushBackAlias); // only in the dedicated one-program cases below
       mask |= (uint64_t{1} << kSvPushBackCopy) | (uint64_t{1} << kSvEmplaceBack) | (uint64_t{1} << kSvObserve);
       for (long k = 0; k < perRandom; ++k) {
         Program p;
@@ -285,7 +291,7 @@ static void runC38() {
       spec.kv("mode", mode).kv("opMask", mask & ((uint64_t{1} << kSvNumOps) - 1)).kv("programs", perRandom);
     }
     vrt::caseBegin(idx, key, spec);
-    vrt::watchdogArm();
+    if (mode != "alias") vrt::watchdogArm(kFlatSeconds);
     long nt = 0, diverged = 0, ops = 0, misaligned = 0;
     uint64_t attempted = 0;
     bool heap = false, inl = false;
@@ -354,7 +360,7 @@ void runC39() {
     std::vector<J> sj;
     for (auto& s : scs) sj.push_back(s.json());
     vrt::caseBegin(idx, key, J().kv("size", static_cast<long>(run->size)).kv("align", static_cast<long>(run->align)).arr("scenarios", sj));
-    vrt::watchdogArm();
+    vrt::watchdogArm(kFlatSeconds);
     long bad = 0;
     std::vector<std::string> cls{std::string("storage:") + run->storage(), "align:" + std::to_string(run->align)};
     auto addCls = [&](const std::string& c) {
